@@ -75,6 +75,16 @@ def handlers : List (String × Handler) := [
     pure (exceptToJson (fun (x : Rat × List Rat × Int × List Int) =>
       Json.mkObj [("spacing", ratToJson x.1), ("position", ratsToJson x.2.1), ("slices", (x.2.2.1 : Json)),
                   ("frame_slices", intsToJson x.2.2.2)]) r)),
+  ("assembleFramesSel", fun j => do
+    let rows ← getRows j "positions"
+    let ori ← getRatList j "ori"
+    let start ← getNat j "start"
+    let stop ← getNat j "stop"
+    let r := assembleFramesSel rows ori (← getOptRat j "hint") (← getOptRat j "rtol") (← getOptRat j "atol")
+      (← getBoolD j "allow_missing" false) start stop
+    pure (exceptToJson (fun (x : Rat × List Rat × Int × List (Nat × Int)) =>
+      Json.mkObj [("spacing", ratToJson x.1), ("position", ratsToJson x.2.1), ("slices", (x.2.2.1 : Json)),
+                  ("frame_slices", Json.arr (x.2.2.2.map fun (p : Nat × Int) => Json.arr #[(p.1 : Json), (p.2 : Json)]).toArray)]) r)),
   ("seriesVolumePositions", fun j => do
     let rows ← getRows j "positions"
     let oris ← getRows j "orientations"
